@@ -93,6 +93,24 @@ func MkCtx(kind int, d time.Duration) (context.Context, context.CancelFunc, stri
 // ErrInjected is returned by scripted stubs.
 var ErrInjected = errors.New("injected exporter error")
 
+// ErrInjectedCanceled is the other error scripted stubs return: an exporter's own error that wraps
+// context.Canceled although the context it was given is alive (a cancelled sub-request, say). Code that
+// takes errors.Is(err, context.Canceled) for "I am being stopped" is wrong about it (after seeded change
+// C01-m, whose batch worker quits on such an error while the processor stays open).
+var ErrInjectedCanceled = fmt.Errorf("injected exporter error: %w", context.Canceled)
+
+// Injected alternates between the two scripted errors (no draw: the tape layout of earlier replays stands).
+//
+//go:norace
+func (r *Run) Injected() error {
+	r.nInjected++
+	if r.nInjected%2 == 0 {
+		r.Fault("exporter-error-wraps-context-canceled")
+		return ErrInjectedCanceled
+	}
+	return ErrInjected
+}
+
 // SleepCtx waits d or until ctx is done, as a scheduling-aware blocking operation.
 //
 //go:norace
@@ -131,7 +149,7 @@ func (r *Run) Behave(ctx context.Context, what string, faulty bool, delays []tim
 		return nil
 	case 2:
 		r.Fault(what + "-error")
-		return ErrInjected
+		return r.Injected()
 	case 3:
 		d := delays[sim.Draw(len(delays))]
 		r.Fault(what + "-slow-ignore-ctx")
@@ -156,6 +174,6 @@ func (r *Run) Behave(ctx context.Context, what string, faulty bool, delays []tim
 		d := delays[sim.Draw(len(delays))]
 		r.Fault(what + "-slow-then-error")
 		simrt.Sleep(d, PtExpWait)
-		return ErrInjected
+		return r.Injected()
 	}
 }
